@@ -6,9 +6,9 @@
    error, an undecodable frame or a lost connection. *)
 From Coq Require Import Strings.String Strings.Byte.
 From Coq Require Import List Arith NArith Bool Lia.
-From Verif Require Import Model.Lifecycle Model.CallLife Model.Graceful
+From Verif Require Import Model.Lifecycle Model.CallLife Model.Graceful Model.ReplyPath
   Proofs.LifecycleProofs Proofs.PeerProofs Proofs.C07Lemmas Proofs.CallLifeProofs Proofs.GracefulProofs
-  Proofs.NoOrphanProofs.
+  Proofs.NoOrphanProofs Proofs.ReplyPathProofs.
 Import ListNotations.
 
 (* The reply write of every CALL handler entered before Close began has succeeded by the
@@ -60,6 +60,56 @@ Theorem C08_peer_close_joins_all : forall es p p' n s,
   nth_error (sessions p') n = Some s -> st s = Ok -> cl s = C0.
 Proof. exact peer_close_joins_all_lemma. Qed.
 Print Assumptions C08_peer_close_joins_all.
+
+(* ---- every way a handler entered before Close produces its reply (Model/ReplyPath.v) ---- *)
+
+(* The status check of session.write admits a reply at ANY point of the life of a CALL context
+   entered before Close began - not only at the first write after the handler returned: also
+   at the write made by the deferred recover() after a panic and at the substitute
+   internal-server-error write after a first write that failed. *)
+Theorem C08_live_entered_handler_admitted : forall s j h,
+  reach_sess s -> nth_error (hctxs s) j = Some h -> k_kind h = KCall -> k_cl h = false ->
+  k_pc h <> KDone -> passive (st s) = false -> admits (st s) true = true.
+Proof. exact live_entered_admitted. Qed.
+Print Assumptions C08_live_entered_handler_admitted.
+
+(* handleCall's reply procedure, for every way [r] it arrives at its reply (result, error
+   status, panic before the first write, a result that Pack refuses - unencodable or over the
+   size limit -, panic after the write): the first write is made in a reachable state s1 and the
+   substitute write, if any, in a reachable state s2, the context being still counted and
+   entered before Close in both, the session not passively closing.  Then, whatever Close has
+   done in between, exactly the reply the call is owed reaches the connection when the
+   connection takes the writes (w1 = w2 = WOk); no other frame is ever sent for it unless the
+   first write failed on the connection itself; and never more than one. *)
+Theorem C08_every_reply_path_delivers : forall r s1 s2 j h1 h2 w1 w2,
+  reach_sess s1 -> reach_sess s2 ->
+  nth_error (hctxs s1) j = Some h1 -> nth_error (hctxs s2) j = Some h2 ->
+  k_kind h1 = KCall -> k_kind h2 = KCall -> k_cl h1 = false -> k_cl h2 = false ->
+  k_pc h1 <> KDone -> k_pc h2 <> KDone ->
+  passive (st s1) = false -> passive (st s2) = false ->
+  (w1 = WOk -> w2 = WOk -> handle_call_reply the_code r (st s1) (st s2) w1 w2 = [genuine r]) /\
+  (w1 <> WOther -> forall f, In f (handle_call_reply the_code r (st s1) (st s2) w1 w2) -> f = genuine r) /\
+  length (handle_call_reply the_code r (st s1) (st s2) w1 w2) <= 1.
+Proof. exact every_reply_path_delivers_lemma. Qed.
+Print Assumptions C08_every_reply_path_delivers.
+
+(* The variant that sends the substitute reply only when Health() holds loses the reply of a
+   handler entered before Close whose result Pack refuses: reachable states s1 (status ok,
+   handler running) and s2 (active-closing, closeLocked blocked in its wait for this very
+   handler) in which the variant sends nothing - with the first write before Close and with
+   both writes after - while the code as it is sends the internal-server-error reply. *)
+Theorem C08_health_gated_substitute_reply_refuted :
+  exists s1 s2 h1 h2,
+    reach_sess s1 /\ reach_sess s2 /\
+    nth_error (hctxs s1) 0 = Some h1 /\ nth_error (hctxs s2) 0 = Some h2 /\
+    k_kind h1 = KCall /\ k_kind h2 = KCall /\ k_cl h1 = false /\ k_cl h2 = false /\
+    k_pc h1 = K1 /\ k_pc h2 = K1 /\ st s1 = Ok /\ st s2 = ActiveClosing /\ cl s2 = C3 /\
+    handle_call_reply (mkRvar true) HrUnpack (st s1) (st s2) WOk WOk = [] /\
+    handle_call_reply (mkRvar true) HrUnpack (st s2) (st s2) WOk WOk = [] /\
+    handle_call_reply the_code HrUnpack (st s1) (st s2) WOk WOk = [F500] /\
+    handle_call_reply the_code HrUnpack (st s2) (st s2) WOk WOk = [F500].
+Proof. exact health_gate_refuted_lemma. Qed.
+Print Assumptions C08_health_gated_substitute_reply_refuted.
 
 (* Non-vacuity: a handler entered before Close, Close blocked on it, then its reply written
    in active-closing and Close completing. *)
